@@ -198,15 +198,156 @@ Proof.
     rewrite Hl, Hrow. cbn [Nat.add Nat.leb firstn app]. rewrite skipn_all2 by lia. rewrite app_nil_r. reflexivity.
 Qed.
 
+(* ---------- the NEON kernel behind its wrapper: one 16-byte store per (column block, row) ---------- *)
+
+Lemma write_rows_map (g : nat -> list Z -> res (list Z)) (G : nat -> list Z -> list Z) : forall n k rows,
+  length rows = k + n ->
+  (forall r, k <= r < k + n -> g r (nth r rows []) = Ok (G r (nth r rows []))) ->
+  write_rows g k n rows = Ok (firstn k rows ++ map (fun r => G r (nth r rows [])) (seq k n)).
+Proof.
+  induction n as [|n IH]; intros k rows Hlen Hg; cbn [seq write_rows map].
+  - rewrite app_nil_r, firstn_all2 by lia. reflexivity.
+  - rewrite (nth_error_Some_nth rows k []) by lia.
+    rewrite (Hg k) by lia. cbn [rbind].
+    rewrite IH.
+    + rewrite firstn_S_upd by lia. rewrite <- app_assoc. cbn [app]. f_equal. f_equal. f_equal.
+      apply map_ext_in. intros r Hr. apply in_seq in Hr. rewrite nth_upd_other by lia. reflexivity.
+    + rewrite upd_length. lia.
+    + intros r Hr. rewrite nth_upd_other by lia. apply Hg. lia.
+Qed.
+
+Lemma acc_row_neon_length (add : add_kind) (seqrows : list (list nat)) (off : nat) : forall (mem : list (list Z)) (s : list Z) (i : nat),
+  length s = 16 ->
+  (forall j, j < length mem -> off + 16 <= length (nth (i + j) seqrows [])) ->
+  length (acc_row (neon_step add) 16 s mem seqrows i off) = 16.
+Proof.
+  induction mem as [|prow mem IH]; intros s i Hs Hrows; cbn [acc_row]; [exact Hs|].
+  apply IH.
+  - unfold neon_step. rewrite zip_with_length; [exact Hs|].
+    unfold vqtbl1q_u8. rewrite !map_length. rewrite firstn_skipn_length; [exact Hs|].
+    specialize (Hrows 0 (Nat.lt_0_succ _)). rewrite Nat.add_0_r in Hrows. exact Hrows.
+  - intros j Hj. replace (S i + j) with (i + S j) by lia. apply Hrows. cbn. lia.
+Qed.
+
+Lemma skipn_skipn_add {A} (l : list A) : forall x y, skipn x (skipn y l) = skipn (y + x) l.
+Proof.
+  induction l as [|a l IH]; intros x y; [rewrite !skipn_nil; reflexivity|].
+  destruct y as [|y]; [reflexivity|]. cbn [skipn plus]. apply IH.
+Qed.
+
+Section NeonInto.
+  Variable q n lo : nat.
+  Variable V : nat -> nat -> list Z.          (* V b r: the register stored for column block b and output row r *)
+  Hypothesis HV : forall b r, b < q -> r < n -> length (V b r) = 16.
+  Variable rows0 : list (list Z).
+  Hypothesis Hlen0 : length rows0 = n.
+  Hypothesis Hwf0 : Forall (fun r => length r = q * 16) rows0.
+
+  Definition grow (j : nat) (row0 : list Z) (r : nat) : list Z :=
+    concat (map (fun b => V b r) (seq 0 j)) ++ skipn (j * 16) row0.
+  Definition rows_at (j : nat) : list (list Z) := map (fun r => grow j (nth r rows0 []) r) (seq 0 n).
+
+  Lemma grow_prefix_length j r : j <= q -> r < n -> length (concat (map (fun b => V b r) (seq 0 j))) = j * 16.
+  Proof. intros Hj Hr. apply concat_map_seq_length. intros b Hb. apply HV; lia. Qed.
+
+  Lemma nth_rows_at j r : r < n -> nth r (rows_at j) [] = grow j (nth r rows0 []) r.
+  Proof.
+    intros Hr. unfold rows_at.
+    rewrite (nth_indep _ [] (grow j (nth 0 rows0 []) 0)) by (rewrite map_length, seq_length; exact Hr).
+    rewrite (map_nth (fun r => grow j (nth r rows0 []) r) (seq 0 n) 0 r). rewrite seq_nth by exact Hr. reflexivity.
+  Qed.
+
+  Lemma block_step j : j < q ->
+    write_rows (fun r row => store_at (j * 16) (V j r) row) 0 n (rows_at j) = Ok (rows_at (S j)).
+  Proof.
+    intros Hj.
+    rewrite (write_rows_map _ (fun r row => firstn (j * 16) row ++ V j r ++ skipn (j * 16 + 16) row)).
+    - cbn [firstn app]. f_equal. change (rows_at (S j)) with (map (fun r => grow (S j) (nth r rows0 []) r) (seq 0 n)).
+      apply map_ext_in. intros r Hr. apply in_seq in Hr.
+      rewrite !nth_rows_at by lia. unfold grow.
+      pose proof (grow_prefix_length j r ltac:(lia) ltac:(lia)) as Hp.
+      rewrite firstn_app_exact by exact Hp.
+      rewrite skipn_app. rewrite (skipn_all2 (concat _)) by lia. cbn [app]. rewrite Hp.
+      replace (j * 16 + 16 - j * 16) with 16 by lia. rewrite skipn_skipn_add.
+      rewrite seq_S, map_app, concat_app. cbn [map concat plus]. rewrite app_nil_r, <- !app_assoc.
+      replace (j * 16 + 16) with (S j * 16) by lia. reflexivity.
+    - unfold rows_at. rewrite map_length, seq_length. reflexivity.
+    - intros r Hr. rewrite nth_rows_at by lia. unfold store_at.
+      rewrite (HV j r Hj ltac:(lia)).
+      assert (Hl : length (grow j (nth r rows0 []) r) = q * 16).
+      { unfold grow. rewrite app_length, grow_prefix_length, skipn_length by lia.
+        rewrite (wf_nth (q * 16) rows0 r Hwf0) by lia. nia. }
+      rewrite Hl. replace (j * 16 + 16 <=? q * 16) with true by (symmetry; apply Nat.leb_le; nia). reflexivity.
+  Qed.
+
+  Lemma blocks_run : forall cnt j, j + cnt = q ->
+    fold_res (fun rows blk => write_rows (fun r row => store_at (blk * 16) (V blk r) row) 0 n rows) (seq j cnt) (rows_at j)
+    = Ok (rows_at q).
+  Proof.
+    induction cnt as [|cnt IH]; intros j Hj; cbn [seq fold_res].
+    - replace j with q by lia. reflexivity.
+    - rewrite block_step by lia. cbn [rbind]. apply IH. lia.
+  Qed.
+
+  Lemma rows_at_0 : rows_at 0 = rows0.
+  Proof.
+    unfold rows_at, grow. cbn [seq map concat app Nat.mul skipn].
+    apply (nth_ext _ _ [] []); [rewrite map_length, seq_length; lia|].
+    intros r Hr. rewrite map_length, seq_length in Hr.
+    rewrite (nth_indep _ [] (nth 0 rows0 [])) by (rewrite map_length, seq_length; exact Hr).
+    rewrite (map_nth (fun r => nth r rows0 []) (seq 0 n) 0 r). rewrite seq_nth by exact Hr. reflexivity.
+  Qed.
+
+  Lemma rows_at_q : rows_at q = map (fun r => concat (map (fun b => V b r) (seq 0 q))) (seq 0 n).
+  Proof.
+    unfold rows_at. apply map_ext_in. intros r Hr. apply in_seq in Hr. unfold grow.
+    rewrite skipn_all2; [apply app_nil_r|]. rewrite (wf_nth (q * 16) rows0 r Hwf0) by lia. lia.
+  Qed.
+End NeonInto.
+
+Theorem neon_rows_into_fresh (q : nat) (dm : list (list Z)) (pads : nat -> list Z) (s : sseq) (lo hi : nat) (old : sscores Z) :
+  buf_wf (q * 16) old -> Forall (fun x => length x = q * 16) (ss_rows s) ->
+  vk_rows_into gen_neon_u8 (q * 16) dm pads s lo hi old = vk_score_rows gen_neon_u8 (q * 16) dm pads s lo hi.
+Proof.
+  intros Hwf Hrows. rewrite gen_neon_u8_expected. unfold vk_rows_into. rewrite vk_score_rows_neon.
+  change (vk_guards (neon_u8_with AddSat)) with guards_expected. rewrite run_guards_into_expected.
+  destruct (length dm =? 0) eqn:EM; [reflexivity|]. destruct (ss_wrap s <? length dm - 1); [reflexivity|].
+  destruct ((ss_len s <? length dm) || (hi <=? lo)); [reflexivity|].
+  destruct (length (ss_rows s) <? hi + length dm - 1) eqn:ER; [reflexivity|].
+  apply Nat.eqb_neq in EM. apply Nat.ltb_ge in ER.
+  unfold vk_kernel_into, vk_kernel. cbn [vk_blocked vk_lanes neon_u8_with].
+  rewrite Nat.div_mul by lia.
+  set (mem := mem_rows dm pads).
+  set (b := buf_resize (q * 16) old (hi - lo) (ss_len s + 1 - length dm)).
+  set (V := fun blk r => vk_row (neon_u8_with AddSat) mem (ss_rows s) (lo + r) (blk * 16)).
+  assert (HV : forall blk r, blk < q -> r < hi - lo -> length (V blk r) = 16).
+  { intros blk r Hb Hr. unfold V. rewrite vk_row_neon. apply acc_row_neon_length; [apply repeat_length|].
+    intros j Hj. unfold mem in Hj. rewrite mem_rows_length in Hj.
+    rewrite (wf_nth (q * 16) (ss_rows s) (lo + r + j) Hrows) by lia. nia. }
+  assert (Hlb : length (sc_rows b) = hi - lo) by (apply buf_resize_rows).
+  assert (Hwb : Forall (fun r => length r = q * 16) (sc_rows b)) by (apply buf_resize_wf; exact Hwf).
+  assert (Hfold : fold_res (fun rows blk => write_rows (fun r row => store_at (blk * 16) (V blk r) row) 0 (hi - lo) rows)
+                           (seq 0 q) (sc_rows b) = Ok (rows_at (hi - lo) V (sc_rows b) q)).
+  { rewrite <- (rows_at_0 (hi - lo) V (sc_rows b) Hlb) at 1.
+    apply (blocks_run q (hi - lo) V HV (sc_rows b) Hlb Hwb q 0). lia. }
+  rewrite (rows_at_q q (hi - lo) V (sc_rows b) Hlb Hwb) in Hfold.
+  unfold V in Hfold. rewrite Hfold. cbn [rbind]. f_equal. f_equal.
+  unfold vk_out_row. cbn [vk_blocked vk_lanes neon_u8_with]. rewrite Nat.div_mul by lia.
+  replace (seq lo (hi - lo)) with (seq (lo + 0) (hi - lo)) by (rewrite Nat.add_0_r; reflexivity).
+  rewrite <- (map_seq_shift (fun i => concat (map (fun blk => vk_row (neon_u8_with AddSat) mem (ss_rows s) i (blk * 16)) (seq 0 q)))
+                            lo (hi - lo) 0).
+  reflexivity.
+Qed.
+
 (* ---------- calls, steps, histories ---------- *)
 
-(* the calls the theorems cover: the kernels that exist on an x86 host.  (The NEON kernel's stores -- one
-   16-byte store per column block and row -- are in the model, vk_kernel_into, but not in these theorems.) *)
+(* the calls the theorems cover: the generic kernel with any number of columns, the AVX2 kernel with 32 columns,
+   the NEON kernel with 16 q columns; the rows of the striped sequence have C symbols (an invariant of the type) *)
 Definition call_ok (C : nat) (c : hcall) : Prop :=
   match hc_id c with
   | UKGeneric => True
   | UKAvx2Shuffle => C = 32 /\ Forall (fun x => length x = 32) (ss_rows (hc_seq c))
-  | UKNeon => False
+  | UKNeon => exists q, C = q * 16 /\ Forall (fun x => length x = q * 16) (ss_rows (hc_seq c))
   end.
 
 Definition op_ok (C : nat) (op : hop) : Prop :=
@@ -224,7 +365,7 @@ Proof.
   destruct (hc_id c).
   - apply generic_rows_into_fresh. exact Hwf.
   - destruct Hc as [-> Hrows]. apply avx2_rows_into_fresh; assumption.
-  - contradiction.
+  - destruct Hc as [q [-> Hrows]]. apply neon_rows_into_fresh; assumption.
 Qed.
 
 Lemma generic_fresh_wf (C : nat) (dm : list (list Z)) (s : sseq) (lo hi : nat) (sc : sscores Z) :
@@ -253,13 +394,31 @@ Proof.
   apply vk_row_avx2_length; [exact Hrows|]. rewrite mem_rows_length. lia.
 Qed.
 
+Lemma neon_fresh_wf (q : nat) (dm : list (list Z)) (pads : nat -> list Z) (s : sseq) (lo hi : nat) (sc : sscores Z) :
+  Forall (fun x => length x = q * 16) (ss_rows s) ->
+  vk_score_rows gen_neon_u8 (q * 16) dm pads s lo hi = Ok sc -> buf_wf (q * 16) sc.
+Proof.
+  intros Hrows. rewrite gen_neon_u8_expected, vk_score_rows_neon.
+  destruct (length dm =? 0) eqn:EM; [discriminate|]. destruct (ss_wrap s <? length dm - 1); [discriminate|].
+  destruct ((ss_len s <? length dm) || (hi <=? lo)); [intros H; injection H as <-; constructor|].
+  destruct (length (ss_rows s) <? hi + length dm - 1) eqn:ER; [discriminate|].
+  apply Nat.eqb_neq in EM. apply Nat.ltb_ge in ER.
+  unfold vk_kernel. intros H. injection H as <-. unfold buf_wf. cbn [sc_rows].
+  apply Forall_forall. intros row Hin. apply in_map_iff in Hin. destruct Hin as [i [<- Hi]]. apply in_seq in Hi.
+  unfold vk_out_row. cbn [vk_blocked vk_lanes neon_u8_with]. rewrite Nat.div_mul by lia.
+  apply concat_map_seq_length. intros b Hb. cbn [plus]. rewrite vk_row_neon.
+  apply acc_row_neon_length; [apply repeat_length|].
+  intros j Hj. rewrite mem_rows_length in Hj.
+  rewrite (wf_nth (q * 16) (ss_rows s) (i + j) Hrows) by lia. nia.
+Qed.
+
 Lemma fresh_call_wf (C : nat) (c : hcall) (lo hi : nat) (sc : sscores Z) :
   call_ok C c -> fresh C c lo hi = Ok sc -> buf_wf C sc.
 Proof.
   unfold fresh_call, run_u8_kernel, call_ok. destruct (hc_id c); intros Hc H.
   - exact (generic_fresh_wf _ _ _ _ _ _ H).
   - destruct Hc as [-> Hrows]. exact (avx2_fresh_wf _ _ _ _ _ _ Hrows H).
-  - contradiction.
+  - destruct Hc as [q [-> Hrows]]. exact (neon_fresh_wf _ _ _ _ _ _ _ Hrows H).
 Qed.
 
 Lemma hstep_wf (C : nat) (op : hop) (buf b' : sscores Z) :
@@ -284,8 +443,8 @@ Proof.
     apply (IH b1 b'); [exact (hstep_wf C op buf b1 Hwf Hop E)|exact Hrest|exact H].
 Qed.
 
-(* after ANY history (scoring calls with any motifs / sequences / row ranges on any x86 pipeline, resizes,
-   fills) that did not panic, a scoring call leaves in the buffer exactly its fresh result *)
+(* after ANY history (scoring calls with any motifs / sequences / row ranges on any pipeline -- generic, AVX2, NEON --,
+   resizes, fills) that did not panic, a scoring call leaves in the buffer exactly its fresh result *)
 Theorem scores_history (C : nat) (ops : list hop) (c : hcall) (lo hi : nat) (buf0 buf : sscores Z) :
   buf_wf C buf0 -> Forall (op_ok C) ops -> call_ok C c ->
   run C ops buf0 = Ok buf ->
